@@ -109,6 +109,21 @@ impl HttpRequester for FakeHttp {
             .nth(1)
             .and_then(|s| s.get(0..4))
             .and_then(|s| s.parse::<u32>().ok());
+        // Like the real API, serve only the observations inside [start_date, end_date] of the request.
+        let range = |name: &str| -> Option<String> {
+            url.split(&format!("{name}=")).nth(1).and_then(|s| s.get(0..10)).map(|s| s.to_string())
+        };
+        let (start, end) = (range("start_date"), range("end_date"));
+        let clip = |body: String| -> String {
+            let (Some(start), Some(end)) = (start.clone(), end.clone()) else { return body };
+            let Ok(mut v) = serde_json::from_str::<serde_json::Value>(&body) else { return body };
+            let Some(obs) = v.get_mut("observations").and_then(|o| o.as_array_mut()) else { return body };
+            obs.retain(|o| match o.get("d").and_then(|d| d.as_str()) {
+                Some(d) if d.len() == 10 => d >= start.as_str() && d <= end.as_str(),
+                _ => true,
+            });
+            v.to_string()
+        };
         if let Some(sb) = &self.series_bodies {
             let series = url
                 .split("/observations/")
@@ -117,15 +132,15 @@ impl HttpRequester for FakeHttp {
                 .unwrap_or("")
                 .to_string();
             return match year {
-                Some(y) => Ok(sb
+                Some(y) => Ok(clip(sb
                     .get(&(series, y))
                     .cloned()
-                    .unwrap_or_else(|| "{\"observations\": []}".to_string())),
+                    .unwrap_or_else(|| "{\"observations\": []}".to_string()))),
                 None => Err(format!("fake http: cannot tell the year of {url}")),
             };
         }
         match year.and_then(|y| self.bodies.get(&y)) {
-            Some(b) => Ok(b.clone()),
+            Some(b) => Ok(clip(b.clone())),
             None => Err(format!("fake http: no body for {url}")),
         }
     }
